@@ -336,6 +336,7 @@ fn strategy() -> BoxedStrategy<CmdCase> {
         1 => (0u8..3).prop_map(CmdCase::Tearing),
         1 => any::<bool>().prop_map(CmdCase::Invert),
         3 => (any::<u8>(), proptest::collection::vec(any::<u8>(), 0..=40)).prop_map(|(instr, params)| CmdCase::Raw { instr, params }),
+        1 => (any::<u8>(), proptest::collection::vec(any::<u8>(), 41..=300)).prop_map(|(instr, params)| CmdCase::Raw { instr, params }),
         4 => (0u8..3, 1u8..=20, any::<u8>(), proptest::collection::vec(any::<u8>(), 0..=40))
             .prop_map(|(transport, buf, instr, params)| CmdCase::RawOnTransport { transport, buf, instr, params }),
         2 => (0u8..3, 1u8..=12, asym_u16(), asym_u16(), asym_u16())
@@ -424,6 +425,15 @@ fn enumerated() -> Vec<CmdCase> {
     for instr in 0..=255u8 {
         out.push(CmdCase::Raw { instr, params: vec![] });
         out.push(CmdCase::Raw { instr, params: (0..(instr % 41)).map(|i| i.wrapping_mul(37) ^ instr).collect() });
+    }
+    // long parameter lists (look-up tables, gamma curves): lengths around the powers of two a staging
+    // buffer might have
+    for n in [31usize, 32, 33, 63, 64, 65, 127, 128, 129, 255, 256, 257, 384, 1000] {
+        let params: Vec<u8> = (0..n).map(|i| (i as u8).wrapping_mul(29) ^ 0x5a).collect();
+        out.push(CmdCase::Raw { instr: 0x2D, params: params.clone() });
+        for transport in 0..3u8 {
+            out.push(CmdCase::RawOnTransport { transport, buf: 7, instr: 0x2D, params: params.clone() });
+        }
     }
     out
 }
